@@ -193,6 +193,12 @@ def all_cases(tier):
         cases.append({"ctor": "ref", "ncell": n, "length": L, "ratio": r, "a": a, "b": b})
     for nx, ny, (lx, ly) in itertools.product((1, 3, 4), (1, 2, 5), [(1, 1), (2, 3), (5, 1)]):
         cases.append({"ctor": "2d", "nx": nx, "ny": ny, "lx": lx, "ly": ly})
+    # sizes straddling the 2^15 / 2^16 limits of narrow index types
+    for nx, ny in ((128, 129), (182, 181), (1, 40000), (33000, 1)):
+        cases.append({"ctor": "2d", "nx": nx, "ny": ny, "lx": 2.0, "ly": 0.75})
+    for n in (32769, 65537):
+        cases.append({"ctor": "uni", "ncell": n, "length": 10.0, "x0": -0.3})
+        cases.append({"ctor": "ref", "ncell": n - 1, "length": 1.0, "ratio": 2.0, "a": 1, "b": 1})
     rng = range(1, 6) if tier == "quick" else range(1, 9)
     for nx, ny, (lx, ly) in itertools.product(rng, rng, [(1.0, 1.0), (2.0, 0.5), (0.1, 37.5)]):
         cases.append({"ctor": "2d", "nx": nx, "ny": ny, "lx": lx, "ly": ly})
